@@ -74,15 +74,17 @@ PROPS["C09"] = {
                   "popitem, clear and the mapping views over SortedMap are covered by the bounded layer only.",
 }
 PROPS["C19"] = {
-    "units": ["contracts.c19_generic:unit_arg_sort", "contracts.c19_generic:unit_subseq"],
+    "units": ["contracts.c19_generic:unit_arg_sort", "contracts.c19_generic:unit_subseq", "contracts.c19_generic:unit_batcher"],
     "bounded": True,
     "level": "other",
     "trusted_base": ["pyvc VC generator (/verif/pyvc)", "z3", "Python semantics as listed in DESIGN.md §2.3", "sorted() library contract"],
-    "explanation": "Deductive (unbounded) for arg_sort, sub_seq, search_sub_seq; roman numerals by exhaustive "
+    "explanation": "Deductive (unbounded) for arg_sort, sub_seq, search_sub_seq, Batcher (len / batch i), BatcherIter on a single iterable; "
+                   "compare_pos_in_iterables (multiset counting needs induction) bounded only; roman numerals by exhaustive "
                    "enumeration of the finite domain 1..3999 on the real code; BatcherIter with tuple inputs bounded only. "
                    "The bounded parts are reported under coverage.bounded and are not counted as proved.",
     "level_text": "Proof for the sequence helpers that are functions of unbounded inputs (arg_sort = the stable sorting permutation incl. reverse; "
-                  "sub_seq / search_sub_seq = exactly the contiguous occurrences, overlapping ones included); "
+                  "sub_seq / search_sub_seq = exactly the contiguous occurrences, overlapping ones included; Batcher: len = ceil(n/bs), batch i = "
+                  "data[i*bs:(i+1)*bs] non-empty; BatcherIter: consecutive non-empty batches whose concatenation is the input, all full but the last); "
                   "exhaustive evaluation for the roman numerals (finite domain); bounded lock-step check for tuple batching.",
     "level_note": "Trusted: pyvc, z3, sorted(). Roman numerals: enumeration of 1..3999 (complete for the stated domain, not a VC).",
 }
@@ -99,6 +101,50 @@ PROPS["C10"] = {
                   "A&B, A|B, A-B, A^B: result has the exact relation, every result span is a span of A or B satisfying the membership "
                   "formula, every such span of A and of B occurs, no span twice. The four shipped relations equal their definitions over reals.",
     "level_note": "Trusted: pyvc, z3, the library contracts named in trusted_base; span bounds are SMT reals (no NaN). copy() not under contract.",
+}
+PROPS["C16"] = {
+    "units": ["contracts.c16_intervalmap", "contracts.c10_spanset", "contracts.c10_spanset:unit_relations"],
+    "bounded": True,
+    "level": "proof",
+    "trusted_base": ["pyvc VC generator (/verif/pyvc)", "z3", "Python semantics as listed in DESIGN.md §2.3",
+                     "library contracts: bisect.bisect_left, sorted (stable), dict.items()"],
+    "level_text": "ImmutIntervalMap.__init__ is verified to raise KeyError exactly when some interval has start > end or two intervals share a "
+                  "point (through SpanSet.__init__'s contract with the Overlaps relation, itself verified, and the same-length<=>nothing-"
+                  "dropped lemma), and otherwise to establish the invariant (parallel arrays, start<=end, pairwise disjoint, sorted-ends "
+                  "permutation with inverse, ends ascending). Lookup: from the bisect_left contract and disjointness the result is the "
+                  "value of the unique interval containing the key, KeyError iff there is none - boundary cases are instances; `in` agrees; "
+                  "len; iteration lists (interval, value) in ascending order.",
+    "level_note": "Trusted: pyvc, z3, the library contracts named; keys and bounds are SMT reals (no NaN).",
+}
+PROPS["C17"] = {
+    "units": ["contracts.c17_combinations"],
+    "bounded": True,
+    "level": "other",
+    "trusted_base": ["pyvc VC generator (/verif/pyvc)", "z3", "Python semantics as listed in DESIGN.md §2.3",
+                     "ASSUMED callee contract: the stream of sorted_combinations (keys non-decreasing, complete, exactly once) - bounded only"],
+    "explanation": "Deductive (unbounded): min_combinations_in_interval_iter_sorted against the stream contract of sorted_combinations - loop "
+                   "invariant over the consumed prefix, soundness of both early exits, result = exactly the stream combinations with the "
+                   "smallest sum in [i_start, i_end), [] iff none. Bounded only (never counted as proved): the stream contract itself, i.e. "
+                   "sorted_combinations yields every non-empty combination exactly once in non-decreasing key order (heap-order argument and "
+                   "a set-of-index-tuples induction that SMT does not carry); checked exhaustively for <= 6/7 elements against itertools.",
+    "level_text": "Proof for the interval search relative to the assumed stream contract; exhaustive bounded check (n <= 6/7, scores 0..3, five "
+                  "monotone keys) for sorted_combinations itself.",
+    "level_note": "The completeness / ordering of the combination stream is an ASSUMED callee contract, bounded-checked only (DESIGN §6 C17, §9).",
+}
+PROPS["C20"] = {
+    "units": ["contracts.c20_pools"],
+    "bounded": True,
+    "level": "proof",
+    "trusted_base": ["pyvc VC generator (/verif/pyvc)", "z3", "Python semantics as listed in DESIGN.md §2.3",
+                     "environment contracts (DESIGN §4): ghost file system, tempfile.NamedTemporaryFile (never-returned-before path), os.remove, "
+                     "multiprocessing.Manager / manager list as a shared local list, file handle close()", "FilePool.open (builtin open per path)"],
+    "level_text": "TmpPool: create returns a path that was never handed out before and exists, appended to the pool (listed paths stay distinct); "
+                  "remove(p) leaves p absent and unlisted on both paths (also when the file had already been deleted) and touches no other file; "
+                  "flush (loop invariant: processed prefix absent, nothing else touched) leaves none of the listed files and an empty pool; "
+                  "__exit__ establishes flush's postcondition for EVERY value of (exc_type, exc_val, exc_tb). FilePool: close and __exit__ (for "
+                  "every exception triple) leave every handle of the pool closed; accessors raise RuntimeError iff the pool is not open.",
+    "level_note": "Trusted: pyvc, z3 and the environment contracts above; that __exit__ runs however the with-body is left is the language "
+                  "guarantee. Multi-process pools (manager list shared with children) and FilePool.open are covered by the bounded layer only.",
 }
 
 # properties not claimed, with the reason (everything else not in PROPS gets the generic "not built yet" reason)
